@@ -244,7 +244,30 @@ func runInstTraces(o *out, r *rng, thorough bool, pid string) {
 			o.sample(map[string]any{"events": d.desc, "final": fmt.Sprint(pr), "decided": d.host.decision != nil})
 		}
 	}
+	if pid == "C07" {
+		runNetMonitors(o, r, thorough, prefix)
+	}
 	o.finish("From F3 Require Import GoInt QuorumGen Instance InstanceRun.")
+}
+
+// multi-node adversarial executions of real participants (netsim), monitors with the given prefix only
+func runNetMonitors(o *out, r *rng, thorough bool, prefix string) {
+	runs := 25
+	if thorough {
+		runs = 400
+	}
+	for i := 0; i < runs; i++ {
+		var local []violation
+		viol := func(clause, sig, detail string) { local = append(local, violation{Clause: clause, Signature: sig, Detail: detail}) }
+		res := simScenario(r, viol)
+		for _, v := range local {
+			if strings.HasPrefix(v.Signature, prefix) {
+				o.violate(v.Clause, v.Signature, res.desc, v.Detail)
+			}
+		}
+		o.Dist[fmt.Sprintf("netsim-max-round-%d", min(res.g.maxRound(), 5))]++
+		o.count(prefix+"-netsim-run", fmt.Sprint(res.desc), res.g.maxRound() > 0 || res.byzVotes > 0)
+	}
 }
 
 // instMonitor: the clauses of C07 evaluated on the REAL participant's emissions against an independent record of what
